@@ -90,9 +90,8 @@ pub fn compare_solutions(sig: &str, a: &v1::Solution, b: &v1::Solution) -> PResu
         if ca2 != cb2 {
             return fail(format!("{sig}/constraint"), format!("constraint {}: {ca:?} vs single evaluation {cb:?}", cb.id));
         }
-        if ua != ub {
-            return fail(format!("{sig}/constraint-used-ids"), format!("constraint {}: used ids {ua:?} vs {ub:?}", cb.id));
-        }
+        // derived information the statement does not list
+        let _ = (ua, ub);
     }
     let (Some(sa), Some(sb)) = (&a.state, &b.state) else {
         return fail(format!("{sig}/state-missing"), "solution without state".to_string());
@@ -102,8 +101,14 @@ pub fn compare_solutions(sig: &str, a: &v1::Solution, b: &v1::Solution) -> PResu
     if ma != mb {
         return fail(format!("{sig}/state"), format!("state {:?} vs single evaluation {:?}", sorted_state(sa), sorted_state(sb)));
     }
-    if a.decision_variables != b.decision_variables {
-        return fail(format!("{sig}/decision-variables"), "decision variables differ".to_string());
+    // the copies of the variable list: the same variables (id, kind, effective bound, recorded value)
+    let key = |v: &v1::DecisionVariable| (v.id, v.kind, crate::model::effective_bound(v).ok().map(|(l, h)| (l.to_bits(), h.to_bits())), v.substituted_value.map(|x| x.to_bits()));
+    let mut ka: Vec<_> = a.decision_variables.iter().map(key).collect();
+    let mut kb: Vec<_> = b.decision_variables.iter().map(key).collect();
+    ka.sort();
+    kb.sort();
+    if ka != kb {
+        return fail(format!("{sig}/decision-variables"), format!("decision variables differ: {ka:?} vs {kb:?}"));
     }
     Ok(())
 }
@@ -267,6 +272,14 @@ impl Property for C06 {
         }
         chk_keys("feasible", ss.feasible.keys().copied().collect())?;
         chk_keys("feasible_relaxed", ss.feasible_relaxed.keys().copied().collect())?;
+        // the set-level accessors speak of the same ids
+        chk_keys("sample_ids()", ss.sample_ids())?;
+        chk_keys("feasible_relaxed() accessor", ss.feasible_relaxed().keys().copied().collect())?;
+        chk_keys("feasible_unrelaxed() accessor", ss.feasible_unrelaxed().keys().copied().collect())?;
+        match ss.num_samples() {
+            Ok(n) if n == want.len() => {}
+            other => return fail("C06/num-samples", ctxmsg(format!("num_samples() gives {other:?} for {} submitted sample ids", want.len()))),
+        }
         for c in &ss.constraints {
             match c.evaluated_values.as_ref().map(sampled_table) {
                 Some(Ok(tb)) => chk_keys("constraint.evaluated_values", tb.keys().copied().collect())?,
